@@ -241,6 +241,11 @@ std::vector<ref::U> solved_targets(Rng &r, bool thorough) {
     add_radix(B51, 6); add_radix(B64, 5); add_radix(B26, 11);
     for (uint64_t j = 1; j <= (thorough ? 40u : 20u); j++) { t.push_back(U(j)); t.push_back(u_sub(p, U(j))); }
     for (int k : { 25, 26, 50, 51, 52, 63, 64, 101, 102, 127, 128, 153, 204, 230, 254 }) { t.push_back(u_shl(U(1), k)); t.push_back(u_sub(u_shl(U(1), k), U(1))); t.push_back(u_sub(p, u_shl(U(1), k))); }
+    // sparse results: non-zero in a single 64-bit word, 32-bit word or byte of the 32-byte output (the "is the shared secret all-zero" scan
+    // and every word-wise store see exactly one non-zero unit)
+    for (int w = 0; w < 4; w++) for (int rep = 0; rep < (thorough ? 20 : 6); rep++) { U k = u_from_le(r.bytes(8)); if (w == 3) k = u_low_bits(k, 62); if (u_is_zero(k)) k = U(1); t.push_back(u_shl(k, 64 * w)); }
+    for (int w = 0; w < 8; w++) for (int rep = 0; rep < (thorough ? 8 : 3); rep++) { U k = u_low_bits(u_from_le(r.bytes(8)), w == 7 ? 30 : 32); if (u_is_zero(k)) k = U(1); t.push_back(u_shl(k, 32 * w)); }
+    for (int j = 0; j < 32; j++) for (int rep = 0; rep < (thorough ? 6 : 2); rep++) { uint64_t b = 1 + r.below(j == 31 ? 0x3f : 255); t.push_back(u_shl(U(b), 8 * j)); }
     return t;
 }
 void explore_solved(Ctx &ctx) {
@@ -262,8 +267,49 @@ void explore_solved(Ctx &ctx) {
     }
 }
 
-bool replay(const KV &k, std::string &msg) { Case c = Case::from(k); return run(c, msg); }
+// ------------------------------------------------------------------ bulk differential between the two ladders
+// Defects in the lazily-reduced limb arithmetic of one ladder that depend on INTERNAL values (not on the result) cannot be aimed at; what
+// remains is volume: uniformly random (scalar, point) pairs through the AVX assembly ladder and the portable ladder, compared with each other
+// (no big-integer model in the loop, so millions of pairs are affordable); a disagreeing pair is then judged against the RFC 7748 model.
+bool run_pair(const Case &c, std::string &msg) {
+    auto masks = masks05();
+    Bytes q[2] = { Bytes(32), Bytes(32) }; int rc[2] = { 0, 0 };
+    for (size_t i = 0; i < masks.size() && i < 2; i++) { set_mask(masks[i]); XBuf qb(32, 3), n(c.scalar, 1), p(c.point, 2); rc[i] = crypto_scalarmult(qb.p, n.p, p.p); q[i] = qb.get(); }
+    ref::Bytes want = ref::x25519(c.scalar, c.point);
+    bool zero = ref::is_all_zero(want);
+    for (size_t i = 0; i < masks.size() && i < 2; i++) {
+        if (zero ? rc[i] != -1 : (rc[i] != 0 || q[i] != want)) {
+            char b[200]; snprintf(b, sizeof b, "crypto_scalarmult under CPU mask 0x%lx (%s ladder): rc=%d got ", masks[i], i == 0 ? "AVX assembly" : "portable", rc[i]);
+            msg = std::string(b) + hex(q[i]) + " want " + (zero ? std::string("failure (all-zero secret)") : hex(want)) + "; the other ladder returned rc=" + std::to_string(rc[1 - i]) + " " + hex(q[1 - i]);
+            return false;
+        }
+    }
+    return true;
+}
+void explore_bulk(Ctx &ctx) {
+    auto masks = masks05();
+    if (masks.size() < 2) { ctx.notes["bulk_pairs"] = "skipped: a single ladder is available on this CPU / in this build"; return; }
+    Rng r = ctx.wrng("c05-bulk");
+    size_t total = ctx.thorough() ? 400000 : 128000;          // per worker
+    const size_t B = 512;
+    std::vector<Bytes> S(B), P(B), Q0(B, Bytes(32)); std::vector<int> R0(B);
+    uint64_t pairs = 0;
+    for (size_t done = 0; done < total && !ctx.failed(); done += B) {
+        for (size_t i = 0; i < B; i++) { S[i] = r.bytes(32); P[i] = r.bytes(32); }
+        set_mask(masks[0]); for (size_t i = 0; i < B; i++) R0[i] = crypto_scalarmult(Q0[i].data(), S[i].data(), P[i].data());
+        set_mask(masks[1]);
+        for (size_t i = 0; i < B; i++) {
+            uint8_t q[32]; int rc = crypto_scalarmult(q, S[i].data(), P[i].data());
+            bool differ = rc != R0[i] || (rc == 0 && memcmp(q, Q0[i].data(), 32) != 0);
+            if (differ || i == 0) { Case c{ 8, S[i], P[i], Bytes(), 0, 0, masks[0] }; exec_case(ctx, c, run_pair, ckey(c), false); }   // i == 0: one pair per batch also goes through the model
+        }
+        pairs += B; ctx.evaluations += B - 1; (*ctx.cur_evals) += B - 1;
+    }
+    ctx.cls("bulk-random-pairs-both-ladders", pairs);
+}
+
+bool replay(const KV &k, std::string &msg) { Case c = Case::from(k); return c.kind == 8 ? run_pair(c, msg) : run(c, msg); }
 
 }  // namespace
 
-std::vector<Sub> vh_subs() { return { { "loworder", explore_loworder, replay }, { "solved_outputs", explore_solved, replay }, { "scalarmult", explore_scalarmult, replay }, { "agreement", explore_agreement, replay } }; }
+std::vector<Sub> vh_subs() { return { { "loworder", explore_loworder, replay }, { "solved_outputs", explore_solved, replay }, { "bulk_ladders", explore_bulk, replay }, { "scalarmult", explore_scalarmult, replay }, { "agreement", explore_agreement, replay } }; }
